@@ -53,10 +53,10 @@ Qed.
 Lemma generic_x86_spec rw first rg m ra cfa fp' :
   row_wf rw = true -> regs64 rg ->
   spec_step DW_RSP DW_RBP (sp rg) (bp rg) (ip rg) rw m = Some (Some ra, cfa, fp') ->
-  ~ (cfa = sp rg /\ ra = ip rg) -> sp rg <= cfa ->
+  ~ (cfa = sp rg /\ ra = ip rg) -> sp rg <= cfa -> (first = false -> sp rg < cfa) ->
   generic_x86 rw first rg m = CbUncacheable ra (set_sp (set_bp (set_ip rg ra) fp') cfa).
 Proof.
-  intros Hwf (Hip & Hsp & Hbp) Hspec Hadv Hge.
+  intros Hwf (Hip & Hsp & Hbp) Hspec Hadv Hge Hcaller.
   unfold row_wf in Hwf. apply andb_prop in Hwf. destruct Hwf as [Hwf Hwra].
   apply andb_prop in Hwf. destruct Hwf as [Hwc Hwfp].
   destruct (spec_shape _ _ _ _ _ _ _ _ _ _ Hspec) as (cr & off & b & Hc & Hb & Hz & Hfp & Hra).
@@ -80,7 +80,7 @@ Proof.
     - unfold u64_plus_i64. rewrite adds64c_zadd by assumption. rewrite Hra. reflexivity. }
   rewrite Efp, Era.
   destruct ((cfa =? sp rg) && (ra =? ip rg)) eqn:Ea; [exfalso; apply Hadv; lia|].
-  destruct (negb first && (cfa <? sp rg)) eqn:Eb; [exfalso; lia|]. reflexivity.
+  destruct (negb first && (cfa <=? sp rg)) eqn:Eb; [exfalso; destruct first; [discriminate | specialize (Hcaller eq_refl); cbn in Eb; lia]|]. reflexivity.
 Qed.
 
 (* ---------- each rule meets the specification of the rows it is produced from ---------- *)
@@ -100,7 +100,7 @@ Theorem row_step_x86_spec rw first rg m ora cfa fp' :
   match ora with
   | None => fst (row_outcome_x86 rw first rg m) = Ok None
   | Some ra =>
-    ra <> 0 -> ~ (cfa = sp rg /\ ra = ip rg) -> sp rg <= cfa ->
+    ra <> 0 -> ~ (cfa = sp rg /\ ra = ip rg) -> sp rg <= cfa -> (first = false -> sp rg < cfa) ->
     (cfa_on_fp DW_RBP rw = true -> bp rg <> 0 /\ sp rg < cfa) ->
     fst (row_outcome_x86 rw first rg m) = Ok (Some ra) /\
     regs_after rg (snd (row_outcome_x86 rw first rg m)) ra cfa fp'
@@ -109,10 +109,10 @@ Proof.
   intros Hwf Hr64 Hspec. pose proof Hr64 as (Hip & Hsp & Hbp).
   destruct ora as [ra|].
   2:{ apply spec_end in Hspec. unfold row_outcome_x86, row_step_x86, translate_x86. rewrite Hspec. reflexivity. }
-  intros Hnz Hadv Hge Hfpg.
+  intros Hnz Hadv Hge Hcaller Hfpg.
   destruct (translate_x86 rw) as [ru|] eqn:Et.
   2:{ unfold row_outcome_x86, row_step_x86. rewrite Et.
-      rewrite (generic_x86_spec rw first rg m ra cfa fp' Hwf Hr64 Hspec Hadv Hge).
+      rewrite (generic_x86_spec rw first rg m ra cfa fp' Hwf Hr64 Hspec Hadv Hge Hcaller).
       destruct (ra =? 0) eqn:E0; [lia|]. split; [reflexivity | apply regs_after_generic]. }
   (* translated: the rule's execution *)
   unfold row_outcome_x86, row_step_x86. rewrite Et.
